@@ -116,4 +116,44 @@ Proof.
   intros H. eapply Rle_trans; [apply Hlip|].
   apply Rle_trans with (L * (1 / 100)); [apply Rmult_le_compat_l; lra|]. lra.
 Qed.
+(* F reflects the order as well, and stretches a gap by at most 1 + L *)
+Lemma F_reflects a b : F a < F b -> a < b.
+Proof.
+  intros H. destruct (Rtotal_order a b) as [Hlt|[Heq|Hgt]]; [exact Hlt| |].
+  - subst b. lra.
+  - pose proof (F_increasing b a Hgt). lra.
+Qed.
+Lemma F_gap_upper a b : a <= b -> F b - F a <= (1 + L) * (b - a).
+Proof.
+  intros H. unfold F. pose proof (Hlip b a) as H1. rewrite (Rabs_pos_eq (b - a)) in H1 by lra.
+  apply Rabs_le_inv in H1. lra.
+Qed.
 End Consequences.
+
+(* an epoch given in one of the two scales and read in the other: the instants a, b are those whose readings in the source scale are
+   F1 a, F1 b; conversions computed within 30 ns of the target readings F2 a, F2 b keep the order of source readings more than 100 ns apart *)
+Section Chain.
+Variable d1 d2 : R -> R.  Variable L1 L2 : R.
+Hypothesis HL1 : 0 <= L1 < 4 / 10000000000.  Hypothesis HL2 : 0 <= L2 < 4 / 10000000000.
+Hypothesis Hlip1 : forall a b, Rabs (d1 a - d1 b) <= L1 * Rabs (a - b).
+Hypothesis Hlip2 : forall a b, Rabs (d2 a - d2 b) <= L2 * Rabs (a - b).
+Lemma chain_same_order a b : a + d1 a < b + d1 b <-> a + d2 a < b + d2 b.
+Proof.
+  split; intros H.
+  - apply (F_increasing d2 L2 HL2 Hlip2). apply (F_reflects d1 L1 HL1 Hlip1). exact H.
+  - apply (F_increasing d1 L1 HL1 Hlip1). apply (F_reflects d2 L2 HL2 Hlip2). exact H.
+Qed.
+Lemma chain_order_preserved (ca cb a b : R) :
+  Rabs (ca - (a + d2 a)) <= 30 / 1000000000 -> Rabs (cb - (b + d2 b)) <= 30 / 1000000000 ->
+  100 / 1000000000 < (b + d1 b) - (a + d1 a) -> ca < cb.
+Proof.
+  intros Ha Hb Hgap.
+  assert (Hab : a < b) by (apply (F_reflects d1 L1 HL1 Hlip1); lra).
+  pose proof (F_gap_upper d1 L1 Hlip1 a b ltac:(lra)) as U. cbv beta in U.
+  pose proof (F_gap d2 L2 Hlip2 a b ltac:(lra)) as G. cbv beta in G.
+  apply Rabs_le_inv in Ha. apply Rabs_le_inv in Hb.
+  assert (H1 : L1 * (b - a) <= 4 / 10000000000 * (b - a)) by (apply Rmult_le_compat_r; lra).
+  assert (H2 : L2 * (b - a) <= 4 / 10000000000 * (b - a)) by (apply Rmult_le_compat_r; lra).
+  lra.
+Qed.
+End Chain.
